@@ -40,10 +40,17 @@ def build_pgcat(quiet=True):
 
 def _call(args):
     func, item = args
-    try:
-        return func(item)
-    except Exception:
-        return {'error': traceback.format_exc(), 'item': item if isinstance(item, (dict, list, str, int)) else repr(item)}
+    for attempt in range(3):
+        try:
+            return func(item)
+        except Exception:
+            err = traceback.format_exc()
+            # a listening port of the harness's own world (mock server or pgcat) was taken by another process between
+            # picking and binding it: not an observation about pgcat - the scenario is run again
+            if attempt < 2 and ('AddrInUse' in err or 'Errno 98' in err or 'Address already in use' in err):
+                time.sleep(0.2 * (attempt + 1))
+                continue
+            return {'error': err, 'item': item if isinstance(item, (dict, list, str, int)) else repr(item)}
 
 
 def run_parallel(func, items, workers=12):
